@@ -345,3 +345,149 @@ def fixture_notebooks():
         except Exception:
             pass
     return out
+
+
+# ------------------------------------------------------------------ targeted three-way scenarios
+def similar_cell(rng, c, used):
+    """a copy of c that the similarity heuristics still align with c (small source edit)"""
+    d = copy.deepcopy(c)
+    if 'id' in d:
+        d['id'] = new_id(rng, used)
+    lines = d['source'].splitlines(True)
+    if lines and rng.random() < 0.8:
+        i = rng.randrange(len(lines))
+        body = lines[i].rstrip('\r\n')
+        lines[i] = body + rng.choice([' # tweak', ' ', 'x']) + lines[i][len(body):]
+        d['source'] = ''.join(lines)
+    elif d['cell_type'] == 'code':
+        d['execution_count'] = (d.get('execution_count') or 0) + 1
+        for o in d['outputs']:
+            if o['output_type'] == 'execute_result':
+                o['execution_count'] = d['execution_count']
+    else:
+        d['metadata'] = dict(d['metadata'], tags=['sim'])
+    return d
+
+
+def long_cell(rng, minor, used, ctype=None):
+    """a cell with enough source for the similarity heuristics to be meaningful"""
+    c = gen_cell(rng, minor, used, ctype)
+    pool = CODE_LINES if c['cell_type'] == 'code' else MD_LINES
+    c['source'] = '\n'.join(rng.sample(pool, min(len(pool), rng.choice([3, 4, 6])))) + rng.choice(['', '\n'])
+    return c
+
+
+def triple_scenario(rng, minor=None):
+    """(base, local, remote, [scenario names]) exercising the conflict arms of the merger"""
+    minor = rng.choice([4, 5, 5, 2]) if minor is None else minor
+    used = set()
+    base = gen_notebook(rng, minor, ncells=0)
+    base['cells'] = [long_cell(rng, minor, used) for _ in range(rng.choice([1, 2, 3, 4]))]
+    l, r = copy.deepcopy(base), copy.deepcopy(base)
+    names = []
+    for _ in range(rng.choice([1, 1, 2, 3])):
+        sc = rng.choice(['concurrent-insert', 'concurrent-insert', 'delete-vs-edit', 'same-line', 'different-lines', 'both-outputs', 'both-metadata',
+                         'insert-next-to-edit', 'delete-vs-transient', 'same-change', 'both-nbmeta', 'both-attachments', 'minor'])
+        names.append(sc)
+        n = min(len(l['cells']), len(r['cells']))
+        common = [i for i in range(n) if l['cells'][i].get('source') == r['cells'][i].get('source') and i < len(base['cells'])]
+        if sc == 'concurrent-insert':
+            p = rng.randrange(n + 1)
+            xs = [long_cell(rng, minor, used) for _ in range(rng.choice([0, 0, 1, 2, 3]))]
+            ys = [long_cell(rng, minor, used) for _ in range(rng.choice([0, 0, 1, 2, 3]))]
+            s = long_cell(rng, minor, used)
+            tail_l = [long_cell(rng, minor, used) for _ in range(rng.choice([0, 0, 1, 3]))]
+            tail_r = [long_cell(rng, minor, used) for _ in range(rng.choice([0, 0, 1]))]
+            if rng.random() < 0.7:
+                l['cells'][p:p] = xs + [s] + tail_l
+                r['cells'][p:p] = ys + [similar_cell(rng, s, used)] + tail_r
+            else:
+                l['cells'][p:p] = xs + tail_l or [s]
+                r['cells'][p:p] = ys + tail_r or [long_cell(rng, minor, used)]
+        elif not common:
+            continue
+        elif sc == 'delete-vs-edit':
+            i = rng.choice(common)
+            a, b_ = (l, r) if rng.random() < 0.5 else (r, l)
+            del a['cells'][i]
+            edit_cell(rng, b_['cells'][i], rng.choice(['source', 'source', 'metadata', 'outputs']) if b_['cells'][i]['cell_type'] == 'code' else 'source')
+            break
+        elif sc == 'delete-vs-transient':
+            i = rng.choice(common)
+            a, b_ = (l, r) if rng.random() < 0.5 else (r, l)
+            c = b_['cells'][i]
+            if c['cell_type'] == 'code':
+                del a['cells'][i]
+                edit_cell(rng, c, 'rerun')
+                c['metadata']['collapsed'] = not c['metadata'].get('collapsed', False)
+                if rng.random() < 0.5:
+                    edit_cell(rng, c, 'source')
+                break
+        elif sc == 'same-line':
+            i = rng.choice(common)
+            lines = l['cells'][i]['source'].splitlines(True)
+            if lines:
+                k = rng.randrange(len(lines))
+                body = lines[k].rstrip('\r\n')
+                end = lines[k][len(body):]
+                l['cells'][i]['source'] = ''.join(lines[:k] + [body + ' LOCAL-EDIT' + end] + lines[k + 1:])
+                r['cells'][i]['source'] = ''.join(lines[:k] + ['REMOTE-EDIT ' + body + end] + lines[k + 1:])
+        elif sc == 'different-lines':
+            i = rng.choice(common)
+            lines = l['cells'][i]['source'].splitlines(True)
+            if len(lines) >= 3:
+                l['cells'][i]['source'] = ''.join(['first local\n'] + lines)
+                r['cells'][i]['source'] = ''.join(lines[:-1] + [lines[-1].rstrip('\r\n') + ' remote-tail' + ('\n' if lines[-1].endswith('\n') else '')])
+        elif sc == 'both-outputs':
+            cands = [i for i in common if l['cells'][i]['cell_type'] == 'code']
+            if cands:
+                i = rng.choice(cands)
+                edit_cell(rng, l['cells'][i], rng.choice(['outputs', 'rerun']))
+                edit_cell(rng, r['cells'][i], rng.choice(['outputs', 'rerun', 'execution_count']))
+        elif sc == 'both-metadata':
+            i = rng.choice(common)
+            edit_cell(rng, l['cells'][i], 'metadata')
+            edit_cell(rng, r['cells'][i], 'metadata')
+            if rng.random() < 0.5 and l['cells'][i]['cell_type'] == 'code':
+                l['cells'][i]['metadata']['scrolled'] = True
+                r['cells'][i]['metadata']['scrolled'] = 'auto'
+        elif sc == 'insert-next-to-edit':
+            i = rng.choice(common)
+            edit_cell(rng, l['cells'][i], 'source')
+            r['cells'].insert(i + rng.choice([0, 1]), long_cell(rng, minor, used))
+            break
+        elif sc == 'same-change':
+            i = rng.choice(common)
+            edit_cell(rng, l['cells'][i], 'source')
+            r['cells'][i] = copy.deepcopy(l['cells'][i])
+        elif sc == 'both-nbmeta':
+            l['metadata']['foo'] = gen_metadata_extra(rng)
+            r['metadata']['foo'] = gen_metadata_extra(rng)
+        elif sc == 'both-attachments':
+            cands = [i for i in common if l['cells'][i]['cell_type'] != 'code']
+            if cands:
+                i = rng.choice(cands)
+                l['cells'][i]['attachments'] = {'fig.png': {'image/png': B64[0]}}
+                r['cells'][i]['attachments'] = {'fig.png': {'image/png': B64[1]}, 'r.png': {'image/png': B64[2]}}
+        elif sc == 'minor':
+            for nb in (l, r):
+                newminor = rng.choice([m for m in range(nb['nbformat_minor'], 6)])
+                if newminor >= 5 > nb['nbformat_minor']:
+                    for c in nb['cells']:
+                        c.setdefault('id', new_id(rng, used))
+                nb['nbformat_minor'] = newminor
+    for nb in (base, l, r):
+        for c in nb['cells']:
+            if nb['nbformat_minor'] >= 5:
+                c.setdefault('id', new_id(rng, used))
+            else:
+                c.pop('id', None)
+        errs = schema_errors(nb)
+        assert not errs, (errs, names)
+    return base, l, r, names
+
+
+def any_triple(rng, minor=None, minor_change=False):
+    if rng.random() < 0.55:
+        return triple_scenario(rng, minor)
+    return triple(rng, minor, minor_change)
